@@ -20,6 +20,7 @@ if [ "$what" = seeded ] || [ "$what" = all ]; then
   # changes listed in seeded/NOT_CAUGHT.txt (with the reason) are reported but do not fail the self-test
   for d in seeded/*/; do
     id=$(basename $d)
+    case "$id" in _*) continue;; esac   # seeded/_superseded: changes overtaken by a repair of /repo (see their meta.json)
     props=$(python3 -c "import json,sys; print(json.load(open('$d/meta.json'))['property'])")
     hit=""
     for pid in $props; do
